@@ -272,7 +272,7 @@ def tasks(tier):
             for openssh in (False, True):
                 T.append(Loop(style, alg, openssh))
                 T.append(LoopReal(style, alg, openssh))
-    for bits in ((512, 1023, 1024, 1025, 2048, 3072) if q else (512, 768, 1023, 1024, 1025, 1536, 2047, 2048, 2049, 3072, 4096)):
+    for bits in ((512, 1023, 1024, 1025, 2048, 3072) if q else (512, 768, 1023, 1024, 1025, 1536, 2047, 2048, 2049, 3071, 3072, 3073, 4096, 6144)):
         T.append(Measure(bits, True))
         if bits % 8:
             T.append(Measure(bits, False))
